@@ -45,4 +45,20 @@ def jobs():
                               remove_bodies=rb + (["coap_update_token"] if nolast else []), unwind=50, flags=FS, group="B1-put", timeout=900, est_gb=3, tier=tier,
                               desc="Block1 upload of %d blocks delivered in order %s (%s Size1, last block %d bytes): exact body, once" % (nblk, sq, "with" if size1 else "without", lastlen),
                               bounds={"blocks": nblk, "order": sq, "size1": size1, "last": lastlen}))
+    # B2: client side of a Block2 download through the real coap_send_lkd / coap_dispatch / handle_response / coap_handle_response_get_block
+    cut2 = ["UNREACH_HANDLE_REQUEST", "UNREACH_HANDLE_RESPONSE", "UNREACH_SIGNALING", "UNREACH_OSCORE", "UNREACH_SESSION_FREE"]
+    rb2 = ["__CPROVER_file_local_coap_net_c_handle_request", "__CPROVER_file_local_coap_net_c_handle_response", "__CPROVER_file_local_coap_net_c_handle_signaling",
+           "coap_session_free", "coap_proxy_remove_association"]
+    seqs2 = [(2, "01", 1, "quick"), (2, "0", 0, "quick"), (2, "001", 1, "quick"), (2, "011", 1, "thorough"), (3, "012", 1, "quick"), (3, "0112", 1, "thorough"), (3, "01", 0, "thorough")]
+    for nblk, sq, complete, tier in seqs2:
+        for single in (1, 0):
+            for size2 in (1, 0):
+                for rtype in ("ack",) + (("non",) if sq in ("01",) else ()):
+                    js.append(Job("B2-get@n%d-seq%s-%s-%s-%s" % (nblk, sq, "single" if single else "perblock", "size2" if size2 else "nosize", rtype), "C09/c09c.c", "c09_b2_get", NU, extra_src=NE,
+                                  defines=["NBLK=%d" % nblk, "SEQLEN=%d" % len(sq), "SEQ={%s}" % ",".join(sq), "SIZE2=%d" % size2, "SINGLE=%d" % single, "COMPLETE=%d" % complete,
+                                           "RTYPE=%d" % (2 if rtype == "ack" else 1)] + cut2,
+                                  remove_bodies=rb2, unwind=50, flags=FS, group="B2-get", timeout=600, est_gb=4, tier=tier,
+                                  desc="Block2 download of %d blocks, responses delivered in order %s (%s, %s Size2, %s responses): exact body/blocks, once, own token" %
+                                       (nblk, sq, "single body" if single else "per block", "with" if size2 else "without", rtype.upper()),
+                                  bounds={"blocks": nblk, "order": sq, "single_body": single, "size2": size2, "type": rtype}))
     return js
